@@ -30,8 +30,8 @@ var (
 	c02Flows      = []string{"code", "oidc", "hyb-idt"}
 	c02Positions  = []string{"fresh", "after-other-grant", "after-refresh-chain", "after-revocation"}
 	c02Presenters = []string{"owner", "foreign-confidential", "foreign-public", "owner-wrong-secret"}
-	c02Redirs     = []string{"equal", "absent", "other-registered", "percent-encoded", "host-case", "trailing-slash", "with-fragment", "unregistered"}
-	c02Smuggles   = []string{"none", "scope-admin", "scope-wider", "audience-other", "scope-narrower", "client_id-other"}
+	c02Redirs     = []string{"equal", "absent", "other-registered", "percent-encoded", "host-case", "trailing-slash", "with-fragment", "unregistered", "query-added"}
+	c02Smuggles   = []string{"none", "scope-admin", "scope-wider", "audience-other", "scope-narrower", "client_id-other", "partial-consent"}
 	c02Ages       = []string{"0", "L-5", "L+5", "2L"}
 )
 
@@ -82,7 +82,15 @@ func c02Run(c c02Case, res *WRes) {
 		params.Set("redirect_uri", regURI)
 		carried = true
 	}
-	ao := w.Authorize(params, AuthzOpts{Subject: "user-1"})
+	opts := AuthzOpts{Subject: "user-1"}
+	if c.Smuggle == "partial-consent" {
+		// the client asks for more than the resource owner grants
+		params.Set("scope", params.Get("scope")+" photos")
+		params.Set("audience", "https://api.example/a https://other.example")
+		opts.GrantScopes = func(req []string) []string { return without(req, "photos") }
+		opts.GrantAud = func(req []string) []string { return without(req, "https://other.example") }
+	}
+	ao := w.Authorize(params, opts)
 	code := ao.Param("code")
 	if code == "" {
 		res.note("sanity:authorize-refused:" + c.Owner + "/" + c.Flow + ":" + ao.Class())
@@ -118,6 +126,8 @@ func c02Run(c c02Case, res *WRes) {
 		form.Set("redirect_uri", regURI+"#x")
 	case "unregistered":
 		form.Set("redirect_uri", "https://evil.example/cb")
+	case "query-added":
+		form.Set("redirect_uri", regURI+"?env=staging")
 	}
 	switch c.Smuggle {
 	case "scope-admin":
